@@ -31,7 +31,36 @@ def mark(rng, v, p_true=0.2, p_false=0.15, depth=0):
     return v
 
 
+def crossref_case(rng):
+    """markers that ARRIVE through references: a hidden ($output: false) document, or a plain one, pulls a subtree
+    marked $output: true / false out of another document (or out of its own template section); selection happens
+    after the references are resolved.  The model is the judge."""
+    body = mark(rng, gen.map_tree(rng, depth=2, nulls=False), 0.1, 0.1)
+    body["$output"] = rng.choice([True, True, False])
+    tmpl = {"kind": "tmpl", "body": body, "other": {"v": 1}}
+    if rng.random() < 0.5:
+        tmpl["$output"] = False
+    kind = rng.choice(["$merge", "$replace"])
+    ref = rng.choice([[{"kind": "tmpl"}, "body"], {"$match": {"kind": "tmpl"}, "$path": "body"}, {"$match": {"kind": "tmpl"}, "$path": ["body"]}])
+    user = {"kind": "user", "x": {kind: ref}, "keep": rng.choice([1, {"n": 2}])}
+    if kind == "$merge" and rng.random() < 0.5:
+        user["x"]["own"] = 1
+    r = rng.random()
+    if r < 0.5:
+        user["$output"] = False
+    elif r < 0.6:
+        user = [{"$output": False}, {"x": {kind: ref}}, "s"]
+    if rng.random() < 0.2:
+        # same-document variant: the marked subtree lives in the document's own hidden section
+        user = {"$output": False, "tpl": dict(body), "x": {kind: "tpl"}} if rng.random() < 0.5 else {"tpl": dict(body, **{"$output": False}), "x": {"$merge": "tpl", "$output": True}}
+    docs = [tmpl, user] if rng.random() < 0.7 else [user, tmpl]
+    steps = [{"merge": {"id": f"D{i}", "parents": [], "data": d}} for i, d in enumerate(docs)] + [{"outdocs": True}]
+    return {"steps": steps, "env": {}, "no_oracle": True}
+
+
 def gen_case(rng):
+    if rng.random() < 0.12:
+        return crossref_case(rng)
     n = 1 if rng.random() < 0.7 else rng.randint(2, 3)
     docs = [mark(rng, gen.map_tree(rng, depth=rng.randint(2, 4), nulls=False)) for _ in range(n)]
     steps = [{"merge": {"id": f"D{i}", "parents": [], "data": d}} for i, d in enumerate(docs)]
@@ -104,7 +133,7 @@ def has_marker(v):
 
 
 def oracle(case, go, mo):
-    if not go or "res" not in go:
+    if not go or "res" not in go or case.get("no_oracle"):
         return None
     last = go["res"][-1]
     from props.c06 import drop_nulls
